@@ -1,4 +1,142 @@
-(* placeholder while the model is being validated *)
-From BV Require Import Lib.Dag Lib.DagMergeSort Model.RevSpec Model.Log.
-Theorem C25_placeholder : True. Proof. exact I. Qed.
-Print Assumptions C25_placeholder.
+(* Properties/C25.v -- Log lists the requested history completely and consistently.
+   Statements only; the model is Model/Log.v (on Model/RevSpec.v, Lib/Dag.v,
+   Lib/DagMergeSort.v), the proofs are in Theory/LogRbd.v, Theory/Log.v and
+   Theory/DagMergeSortFacts.v.
+
+   [log_revisions b start end forward levels limit excl] models
+   _DefaultLogGenerator.iter_log_revisions (the (revision, revno, merge depth)
+   sequence and the exception the iteration ends with, if any; limit 0 = none);
+   [calc_view] models _calc_view_revisions; b is ANY branch over a well-formed
+   revision graph whose tip t is present.  The merge-sorted order, revnos and
+   depths are those of the Gallina merge sort (Lib/DagMergeSort), compared with
+   compiled vcsgraph on every generated history (see C22).
+
+   Not covered by theorems (stated in notes/C25.md): exactness of ranges on the
+   merge-sorted ("with-merges") path is checked by the oracle only; the per-file
+   filters are not modelled. *)
+From Coq Require Import List Arith Bool Permutation.
+From BV Require Import Lib.Dag Theory.DagFacts Lib.DagMergeSort Theory.DagMergeSortFacts
+                       Model.RevSpec Theory.RevSpec Model.Log Theory.LogRbd Theory.Log.
+Import ListNotations.
+
+(* ---- every revision of the ancestry exactly once, with revno and depth ----------------- *)
+
+Theorem C25_each_once :
+  forall b (t : revid), wf_dag (br_g b) = true -> br_tip b = Some t -> t < length (br_g b) ->
+  log_revisions b None None false 0 0 false =
+    (map whole_view (merge_sort (br_g b) (br_tip b)), None) /\
+  Permutation (map v_id (fst (log_revisions b None None false 0 0 false)))
+              (filter (present (br_g b)) (ancestors (br_g b) [t])).
+Proof.
+  intros b t W T L. split; [apply (log_whole_reverse b t W T L) | apply (log_whole_each_once b t W T L)].
+Qed.
+Print Assumptions C25_each_once.
+
+(* ---- reverse_by_depth ------------------------------------------------------------------- *)
+
+(* a permutation of its input, for EVERY list of (payload, depth) (the final
+   filter of the code drops the entries whose revno is None: [hr] false) *)
+Theorem C25_reverse_by_depth_perm :
+  forall (A : Type) (hr : A -> bool) (l : list (A * nat)),
+  Permutation (reverse_by_depth hr l) (filter (fun x => hr (fst x)) l).
+Proof. exact @reverse_by_depth_perm. Qed.
+Print Assumptions C25_reverse_by_depth_perm.
+
+(* an involution on depth-well-formed lists (first depth 0, a step goes up by at
+   most one), which it maps to depth-well-formed lists *)
+Theorem C25_reverse_by_depth_involutive :
+  forall (A : Type) (hr : A -> bool) (l : list (A * nat)),
+  wf_depths l = true -> forallb (fun x => hr (fst x)) l = true ->
+  reverse_by_depth hr (reverse_by_depth hr l) = l /\ wf_depths (reverse_by_depth hr l) = true.
+Proof.
+  intros A hr l W H. split; [apply reverse_by_depth_involutive | apply reverse_by_depth_wf]; assumption.
+Qed.
+Print Assumptions C25_reverse_by_depth_involutive.
+
+(* the forward log is the reverse-by-depth of the reverse log and vice versa *)
+Theorem C25_forward_is_reverse_by_depth :
+  forall b (t : revid), wf_dag (br_g b) = true -> br_tip b = Some t -> t < length (br_g b) ->
+  log_revisions b None None true 0 0 false =
+    (reverse_by_depth has_revno (fst (log_revisions b None None false 0 0 false)), None) /\
+  reverse_by_depth has_revno (fst (log_revisions b None None true 0 0 false)) =
+    fst (log_revisions b None None false 0 0 false) /\
+  wf_depths (fst (log_revisions b None None false 0 0 false)) = true.
+Proof.
+  intros b t W T L. split; [apply (log_whole_forward b t W T L)|].
+  split; [apply (log_whole_reverse_of_forward b t W T L)|].
+  rewrite (log_whole_reverse b t W T L). apply (whole_views_wf b t W T L).
+Qed.
+Print Assumptions C25_forward_is_reverse_by_depth.
+
+(* _rebase_merge_depth shifts all depths by one common amount and leaves a list
+   that shows a top-level revision alone *)
+Theorem C25_rebase_merge_depth :
+  forall (A : Type) (l : list (A * nat)),
+  map fst (rebase_merge_depth l) = map fst l /\
+  (exists m, (forall y, In y l -> m <= snd y) /\ rebase_merge_depth l = map (fun y => (fst y, snd y - m)) l) /\
+  ((exists y, In y l /\ snd y = 0) -> rebase_merge_depth l = l).
+Proof. intros A l. split; [apply rebase_ids | split; [apply rebase_shift | apply rebase_noop_if_zero]]. Qed.
+Print Assumptions C25_rebase_merge_depth.
+
+(* ---- one level = the left-hand history --------------------------------------------------- *)
+
+Theorem C25_level1_is_lefthand :
+  forall b (t : revid), br_tip b = Some t ->
+  log_revisions b None None false 1 0 false = (count_down (last_revno b) (lh b), None) /\
+  map v_id (fst (log_revisions b None None false 1 0 false)) = lefthand (br_g b) t /\
+  map v_id (fst (log_revisions b None None true 1 0 false)) = rev (lefthand (br_g b) t) /\
+  (forall i r, nth_error (lh b) i = Some r ->
+     nth_error (count_down (last_revno b) (lh b)) i = Some ((r, Some [last_revno b - i]), 0)).
+Proof.
+  intros b t T. split; [apply (log_level1_reverse b t T)|].
+  destruct (log_level1_is_lefthand b t T) as [A B]. split; [exact A | split; [exact B|]].
+  intros i r. apply count_down_nth.
+Qed.
+Print Assumptions C25_level1_is_lefthand.
+
+(* the linear fast path and the level filter over the merge-sorted path list the same revisions *)
+Theorem C25_linear_eq_graph :
+  forall b (t : revid), wf_dag (br_g b) = true -> br_tip b = Some t ->
+  t < length (br_g b) -> lefthand_present (br_g b) t = true ->
+  map v_id (filter (fun v => v_depth v <? 1) (fst (log_revisions b None None false 0 0 false))) =
+  map v_id (fst (log_revisions b None None false 1 0 false)).
+Proof. exact linear_eq_graph_whole. Qed.
+Print Assumptions C25_linear_eq_graph.
+
+(* ---- ranges ---------------------------------------------------------------------------------- *)
+
+(* a range whose start s is on the left-hand history of its end e lists, at one
+   level, exactly the revisions from e down to s (forward: from s up to e) *)
+Theorem C25_range_exact :
+  forall b tip s e pre post forward delayed, wf_dag (br_g b) = true ->
+  br_tip b = Some tip -> s <> e -> lefthand (br_g b) e = pre ++ s :: post ->
+  calc_view b (Some s) (Some e) forward false delayed false =
+  ((if forward then rev (map (mk_view b) (pre ++ [s])) else map (mk_view b) (pre ++ [s])), None).
+Proof. exact calc_view_range_level1. Qed.
+Print Assumptions C25_range_exact.
+
+(* REFUTED: "a range never ends in an internal error".  Two merged revisions
+   with the same base revno on different branches (1.1.1 and 1.2.1) pass
+   _is_obvious_ancestor, the generator is returned unevaluated, and the internal
+   _StartNotLinearAncestor escapes at level 1 -- while level 0 reports the proper
+   CommandError.  Reproduced on the real code (finding C25-start-not-linear-leak). *)
+Theorem C25_range_no_internal_error_refuted :
+  exists b s e, wf_dag (br_g b) = true /\
+  revision_id_to_dotted_revno b (Some s) = Ok [1; 1; 1] /\
+  revision_id_to_dotted_revno b (Some e) = Ok [1; 2; 1] /\
+  snd (log_revisions b (Some s) (Some e) false 1 0 false) = Some StartNotLinearAncestor /\
+  snd (log_revisions b (Some s) (Some e) false 0 0 false) = Some StartNotInHistory.
+Proof. exists leak_branch, 3, 4. exact internal_error_leaks. Qed.
+Print Assumptions C25_range_no_internal_error_refuted.
+
+(* GUARDED: the internal exception can only escape in the reverse direction, at
+   one level, with a start revision that _is_obvious_ancestor accepts although the
+   left-hand walk from the end never meets it *)
+Theorem C25_range_no_internal_error_guarded :
+  forall b start end_ forward gen_merge delayed excl,
+  snd (calc_view b start end_ forward gen_merge delayed excl) = Some StartNotLinearAncestor ->
+  forward = false /\ gen_merge = false /\ (exists s, start = Some s) /\
+  is_obvious_ancestor b start end_ = true /\
+  snd (linear_view b start end_ excl) = Some StartNotLinearAncestor.
+Proof. exact calc_view_internal_error_guarded. Qed.
+Print Assumptions C25_range_no_internal_error_guarded.
